@@ -206,7 +206,16 @@ func (w *wal) read() (WALBatch, error) {
 }
 
 func (w *wal) flush(batch WALBatch) error {
+	if len(batch) == 0 {
+		return nil
+	}
+
 	tupleLenBuf := make([]byte, 4)
+
+	// the records of a batch are appended with a single write, so that a crash
+	// can not leave a partially logged statement (a length prefix without its
+	// record, a row without the page table update that belongs to it) behind
+	batchBuf := &bytes.Buffer{}
 
 	for _, tuple := range batch {
 		tupleBuf, err := tuple.encode()
@@ -217,25 +226,21 @@ func (w *wal) flush(batch WALBatch) error {
 		tupleLen := len(tupleBuf.Bytes())
 		binary.LittleEndian.PutUint32(tupleLenBuf, uint32(tupleLen))
 
-		verifPoint("wal.write", uint64(len(tupleLenBuf)))
-		if n, err := w.reader.Write(tupleLenBuf); err != nil {
-			return err
-		} else if n != len(tupleLenBuf) {
-			panic("bytes written differs from expected buffer length")
-		}
+		batchBuf.Write(tupleLenBuf)
+		batchBuf.Write(tupleBuf.Bytes())
+	}
 
-		verifPoint("wal.write", uint64(tupleLen))
-		if n, err := w.reader.Write(tupleBuf.Bytes()); err != nil {
-			return err
-		} else if n != tupleLen {
-			panic("bytes written differs from expected buffer length")
-		}
+	verifPoint("wal.write", uint64(batchBuf.Len()))
+	if n, err := w.reader.Write(batchBuf.Bytes()); err != nil {
+		return err
+	} else if n != batchBuf.Len() {
+		panic("bytes written differs from expected buffer length")
+	}
 
-		if w.forceSync {
-			verifPoint("wal.sync", 0)
-			if err := w.reader.Sync(); err != nil {
-				return err
-			}
+	if w.forceSync {
+		verifPoint("wal.sync", 0)
+		if err := w.reader.Sync(); err != nil {
+			return err
 		}
 	}
 
